@@ -8,7 +8,9 @@ package vsync
 
 import (
 	"fmt"
+	"runtime"
 	"sync"
+	"sync/atomic"
 
 	"github.com/bluenviron/gohlslib/v2/internal/zzverif/vsched"
 )
@@ -22,10 +24,26 @@ type (
 
 // Mutex is a cooperative sync.Mutex.
 type Mutex struct {
-	real   sync.Mutex
-	locked bool
-	owner  string
-	reg    bool
+	real      sync.Mutex
+	locked    bool
+	owner     string
+	reg       bool
+	realOwner atomic.Int64 // outside controlled executions: id of the goroutine that holds real (0: nobody)
+}
+
+// gid returns the id of the calling goroutine (parsed from the header line of its stack trace).
+func gid() int64 {
+	var buf [64]byte
+	b := buf[:runtime.Stack(buf[:], false)]
+	// "goroutine 123 [running]:"
+	var id int64
+	for _, c := range b[len("goroutine "):] {
+		if c < '0' || c > '9' {
+			break
+		}
+		id = id*10 + int64(c-'0')
+	}
+	return id
 }
 
 func (m *Mutex) Describe() string {
@@ -43,7 +61,15 @@ func (m *Mutex) Lock() {
 		if m.reg { // used under the scheduler: this is teardown (Goexit running deferred calls)
 			return
 		}
-		m.real.Lock()
+		if !m.real.TryLock() {
+			// sequential harnesses run outside the scheduler, where nothing detects a deadlock: a goroutine that locks a
+			// mutex it already holds would hang the worker for ever. That one case is certain and is reported as what it is.
+			if g := gid(); g != 0 && m.realOwner.Load() == g {
+				panic("verif: self-deadlock: this goroutine locks a sync.Mutex that it already holds (the call would block forever)")
+			}
+			m.real.Lock()
+		}
+		m.realOwner.Store(gid())
 		return
 	}
 	if !m.reg {
@@ -61,7 +87,11 @@ func (m *Mutex) TryLock() bool {
 		if m.reg {
 			return true
 		}
-		return m.real.TryLock()
+		if m.real.TryLock() {
+			m.realOwner.Store(gid())
+			return true
+		}
+		return false
 	}
 	vsched.Yield("TryLock")
 	if m.locked {
@@ -88,6 +118,7 @@ func (m *Mutex) Unlock() {
 			m.locked = false
 			return
 		}
+		m.realOwner.Store(0)
 		m.real.Unlock()
 		return
 	}
